@@ -1431,7 +1431,8 @@ class SX:
             s.env[('i', info['p'].id)] = P(p0.base, p0.off - nd + 1)
             s.env[('i', info['div'].id)] = Lin(0)
             s.env[('i', info['u'].id)] = Lin.sym(self.opq('ulast', fn.name, H.name))
-            s.notes = s.notes + (('digits', fn.name, vkey(p0), vkey(nd), vkey(u0), vkey(d)),)
+            s.notes = s.notes + (('digits', fn.name, p0, nd, u0 if isinstance(u0, Lin) else None,
+                                  d if isinstance(d, Lin) else None),)
             res.append((s, info['exit_from'], info['exit']))
         return res
 
